@@ -2011,10 +2011,16 @@ private:
     size_type work_per_thread = (end - start) / num_workers;
     std::vector<std::thread, rebind_alloc<std::thread>> threads(
         get_allocator());
-    threads.reserve(num_extra_threads);
-    for (size_type i = 0; i < num_extra_threads; ++i) {
-      threads.emplace_back(func, start, start + work_per_thread);
-      start += work_per_thread;
+    // This function is called from noexcept code. If the helper threads (or
+    // the storage for them) cannot be obtained, the calling thread does the
+    // work that has not been handed out itself.
+    try {
+      threads.reserve(num_extra_threads);
+      for (size_type i = 0; i < num_extra_threads; ++i) {
+        threads.emplace_back(func, start, start + work_per_thread);
+        start += work_per_thread;
+      }
+    } catch (...) {
     }
     func(start, end);
     for (std::thread &t : threads) {
